@@ -39,8 +39,9 @@ def seg_fields(text):
 class ListSpec(hist.Spec):
     """kind: 'segment' | 'message' | 'group' | 'field'"""
 
-    def __init__(self, sid, kind, level, root_name, init, names, values, maxes, longnames=None, donor_init=None):
+    def __init__(self, sid, kind, level, root_name, init, names, values, maxes, longnames=None, donor_init=None, pre=()):
         self.sid, self.kind, self.level, self.root_name, self.init = sid, kind, level, root_name, init
+        self.pre = tuple(pre)           # operations applied to the initial objects (and to the model): a non-initial start
         self.names = names              # HL7 names of the three children
         self.values = values            # name -> [v1, v2]
         self.maxes = maxes              # name -> max cardinality (-1 unbounded)
@@ -69,7 +70,10 @@ class ListSpec(hist.Spec):
         return Message(self.root_name, version=V, validation_level=self.level)
 
     def build(self):
-        return {'root': self._make(self.init), 'donor': self._make(self.donor_init)}
+        pool = {'root': self._make(self.init), 'donor': self._make(self.donor_init)}
+        for op in self.pre:
+            self.apply(pool, op)
+        return pool
 
     def child_el(self, name, text):
         from hl7apy.core import Field, Component, Segment, Group
@@ -120,6 +124,11 @@ class ListSpec(hist.Spec):
         for n in self.names:
             ops.append(('touch', n))
         ops.append(('touch_bad', self.names[1]))
+        # writes through the proxy of the child (first repetition, created when absent) and a copy addressed by long name
+        for n in self.names:
+            ops.append(('set_via_proxy', n, self.values[n][0]))
+            if n in self.longnames:
+                ops.append(('copy_el_long', n))
         return ops
 
     def spelling(self, n, how):
@@ -158,6 +167,10 @@ class ListSpec(hist.Spec):
             setattr(r, op[1], getattr(d, op[1]))
         elif k == 'copy_el':
             setattr(r, op[1], getattr(d, op[1])[0])
+        elif k == 'set_via_proxy':
+            getattr(r, op[1].lower()).value = op[2]
+        elif k == 'copy_el_long':
+            setattr(r, self.longnames[op[1]].lower(), getattr(d, op[1])[0])
         elif k == 'touch':
             getattr(r, op[1].lower()).value
         elif k == 'touch_bad':
@@ -192,7 +205,10 @@ class ListSpec(hist.Spec):
         return [(l[:3], l) for l in refmodel.seg_lines(text)]
 
     def model_init(self):
-        return {'root': self.entries_of(self.init), 'donor': self.entries_of(self.donor_init), 'shared': False}
+        m = {'root': self.entries_of(self.init), 'donor': self.entries_of(self.donor_init), 'shared': False}
+        for op in self.pre:
+            m, _ = self.model_apply(m, op, None)
+        return m
 
     def _nth(self, entries, name, i):
         idx = [p for p, (n, t) in enumerate(entries) if n == name]
@@ -220,7 +236,7 @@ class ListSpec(hist.Spec):
             else:
                 e[p] = (name, text)
             return 'ok'
-        if k in ('set', 'set_lower', 'set_long', 'set_el'):
+        if k in ('set', 'set_lower', 'set_long', 'set_el', 'set_via_proxy'):
             return self._ret(m, model, put(op[1], 0, op[2]))
         if k == 'setidx':
             return self._ret(m, model, put(op[1], op[2], op[3]))
@@ -247,7 +263,7 @@ class ListSpec(hist.Spec):
                 return model, 'raise'
             del e[op[1]]
             return m, 'ok'
-        if k in ('copy', 'copy_el'):
+        if k in ('copy', 'copy_el', 'copy_el_long'):
             p = self._nth(m['donor'], op[1], 0)
             if p is None:
                 return model, None          # nothing to copy: outcome unspecified (raises or no-op)
@@ -423,6 +439,9 @@ def _add(s):
 
 _add(ListSpec('seg-empty-T', 'segment', TOLERANT, 'PID', None, PID_NAMES, PID_VALUES, PID_MAX, PID_LONG, 'PID|9||D1~D2||DN'))
 _add(ListSpec('seg-parsed-T', 'segment', TOLERANT, 'PID', 'PID|1||A~B~C||X^Y', PID_NAMES, PID_VALUES, PID_MAX, PID_LONG, 'PID|9||D1~D2||DN'))
+# the same after one child name has been emptied again (its by-name entry exists and is empty)
+_add(ListSpec('seg-parsed-T-emptied', 'segment', TOLERANT, 'PID', 'PID|1||A~B~C||X^Y', PID_NAMES, PID_VALUES, PID_MAX, PID_LONG, 'PID|9||D1~D2||DN',
+              pre=(('del', 'PID_5'),)))
 _add(ListSpec('seg-parsed-S', 'segment', STRICT, 'PID', 'PID|1||A~B~C||X^Y', PID_NAMES, PID_VALUES, PID_MAX, PID_LONG, 'PID|9||D1~D2||DN'))
 _add(ListSpec('seg-z-T', 'segment', TOLERANT, 'ZZZ', 'ZZZ|p|q', ZZZ_NAMES, ZZZ_VALUES, {}, None, 'ZZZ|d1|d2'))
 _add(ListSpec('seg-qpd-T', 'segment', TOLERANT, 'QPD', 'QPD|Q||k', QPD_NAMES, QPD_VALUES, {'QPD_1': 1}, None, 'QPD|D||d3'))
